@@ -260,7 +260,8 @@ struct Scenario {
   std::string kind, policy, form, api;
   int n = 0;
   std::string pattern;  // one char per input: V value, E error, X exception
-  std::string shape;    // one char per input: u unique, s shared, k shared with a copy kept by the client
+  std::string shape;    // one char per input: u unique, s shared, k shared with a copy kept by the client,
+                        // p shared with a subscriber attached before the combinator call, d the SAME SharedFuture as input i-1
   Body body = nullptr;
   bool passthrough = false;  // dynamic WhenAny with count == 1 returns the input itself: no combinator
   std::string Header() const {
@@ -284,12 +285,27 @@ struct Observed {
 };
 Observed gObs;
 
+// the subscriber a 'p' input got before the combinator call: must run exactly once, after its own input, with its value
+struct SubRec {
+  bool armed = false;
+  int calls = 0;
+  std::string val;
+};
+SubRec gSub[4];
+
+// input i's outcome comes from input Src(i) (itself, or the future it duplicates)
+int Src(const std::string& shape, int i) {
+  while (i > 0 && shape[static_cast<std::size_t>(i)] == 'd') --i;
+  return i;
+}
+
 struct InputBase {
   virtual ~InputBase() = default;
   virtual void Make(int i, char shape) = 0;
   virtual void Complete(char kind, int i) = 0;
   virtual void DropKept() = 0;
   virtual std::string Kept(int i) = 0;  // "" if fine
+  virtual void CopyFrom(InputBase& other) = 0;
 };
 
 void Track(int i, const void* most_derived, bool shared, yaclib::detail::BaseCore& core) {
@@ -308,11 +324,20 @@ struct Input final : InputBase {
   char want = 'V';
 
   void Make(int i, char shape) final {
+    if (shape == 'd') return;  // no contract of its own: the call passes the previous input's SharedFuture again
     if constexpr (Shared) {
       auto [ff, pp] = yaclib::MakeSharedContract<V, VErr>();
       f = std::move(ff);
       p = std::move(pp);
       if (shape == 'k') keep.emplace(f);
+      if (shape == 'p') {
+        gSub[i].armed = true;
+        f.SubscribeInline([i](const yaclib::Result<V, VErr>& r) {
+          ++gSub[i].calls;
+          gSub[i].val = ShowR(r);
+          vx::Ev("sub " + std::to_string(i) + " " + gSub[i].val);
+        });
+      }
     } else {
       auto [ff, pp] = yaclib::MakeContract<V, VErr>();
       f = std::move(ff);
@@ -323,6 +348,7 @@ struct Input final : InputBase {
   }
   void Complete(char kind, int i) final {
     want = kind;
+    if (!p.Valid()) return;  // a 'd' input: completed through the input it duplicates
     if (kind == 'V') {
       if constexpr (std::is_void_v<V>) std::move(p).Set();
       else std::move(p).Set(V{i});
@@ -333,6 +359,9 @@ struct Input final : InputBase {
     }
   }
   void DropKept() final { keep.reset(); }
+  void CopyFrom(InputBase& other) final {
+    if constexpr (Shared) f = static_cast<Input&>(other).f;
+  }
   std::string Kept(int i) final {
     if constexpr (Shared) {
       if (keep) {
@@ -386,6 +415,7 @@ void Drive(const Scenario& sc, const std::vector<InputBase*>& ins, const std::fu
   gNamedN = 0;
   gLive = 0;
   gBadDestroy = 0;
+  for (auto& r : gSub) r = SubRec{};
   auto& ctx = *vx::gCtx;
   ctx.NameValWord(0, "empty");
   ctx.NameValWord(~0ULL, "result");
@@ -427,7 +457,11 @@ void RunWith(const Scenario& sc, Api api) {
   std::tuple<Ins...> t;
   std::vector<InputBase*> ins;
   std::apply([&](auto&... x) { (ins.push_back(&x), ...); }, t);
-  Drive(sc, ins, [&] { std::apply([&](auto&... x) { api(x...); }, t); });
+  Drive(sc, ins, [&] { std::apply([&](auto&... x) { api(x...); }, t); }, [&] {
+    // a 'd' input is the previous input's SharedFuture once more (copied before the call: the copy is an atomic IncRef)
+    for (int i = 1; i < sc.n; ++i)
+      if (sc.shape[static_cast<std::size_t>(i)] == 'd') ins[static_cast<std::size_t>(i)]->CopyFrom(*ins[static_cast<std::size_t>(i) - 1]);
+  });
   gKeptProblem.clear();
   Finish(sc, ins, gKeptProblem);
 }
@@ -475,6 +509,9 @@ void Add(const std::string& kind, yaclib::FailPolicy f, const std::string& form,
          const std::string& shape, Body body, bool reduced = false, bool passthrough = false) {
   int n = static_cast<int>(shape.size());
   for (auto& pat : Patterns(n, reduced)) {
+    bool consistent = true;  // a duplicated future has one outcome
+    for (int i = 1; i < n; ++i) consistent = consistent && (shape[i] != 'd' || pat[i] == pat[i - 1]);
+    if (!consistent) continue;
     Scenario sc;
     sc.kind = kind;
     sc.policy = PolName(f);
@@ -509,6 +546,27 @@ void AddAllFor() {
     }, true);
     Add("allvec", F, "static", "WhenAll(u,s)", "us", [](const Scenario& sc) {
       RunWith<U0, S0>(sc, [](auto& a, auto& b) { Observe(yaclib::WhenAll<F>(std::move(a.f), std::move(b.f))); });
+    }, true);
+    // shared inputs of ONE type in the variadic form: every one needs its own callback node (a SharedCore threads its
+    // subscriber list through the nodes); one input has another subscriber already, or the same future is passed twice
+    auto ss = [](const Scenario& sc) {
+      RunWith<S0, S0>(sc, [](auto& a, auto& b) { Observe(yaclib::WhenAll<F>(std::move(a.f), std::move(b.f))); });
+    };
+    Add("allvec", F, "static", "WhenAll(p,s)", "ps", ss, true);
+    Add("allvec", F, "static", "WhenAll(s,p)", "sp", ss, true);
+    Add("allvec", F, "static", "WhenAll(s,p,s)", "sps", [](const Scenario& sc) {
+      RunWith<S0, S0, S0>(sc, [](auto& a, auto& b, auto& c) {
+        Observe(yaclib::WhenAll<F>(std::move(a.f), std::move(b.f), std::move(c.f)));
+      });
+    }, true);
+    Add("allvec", F, "static", "WhenAll(f,f)", "sd", [](const Scenario& sc) {
+      RunWith<S0, S0>(sc, [](auto& a, auto& b) { Observe(yaclib::WhenAll<F>(std::move(a.f), std::move(b.f))); });
+    }, true);
+    Add("join", F, "static", "Join(s,p)", "sp", [](const Scenario& sc) {
+      RunWith<S0, S0>(sc, [](auto& a, auto& b) { Observe(yaclib::Join<F>(std::move(a.f), std::move(b.f))); });
+    }, true);
+    Add("join", F, "static", "Join(f,f)", "sd", [](const Scenario& sc) {
+      RunWith<S0, S0>(sc, [](auto& a, auto& b) { Observe(yaclib::Join<F>(std::move(a.f), std::move(b.f))); });
     }, true);
     // vector form, dynamic
     auto dyn = [](const Scenario& sc) {
@@ -592,6 +650,14 @@ void AddAnyFor() {
     Add("any", F, "static", "WhenAny(u,s)", "us", [](const Scenario& sc) {
       RunWith<U0, S0>(sc, [](auto& a, auto& b) { Observe(yaclib::WhenAny<F>(std::move(a.f), std::move(b.f))); });
     }, true);
+    auto ss = [](const Scenario& sc) {
+      RunWith<S0, S0>(sc, [](auto& a, auto& b) { Observe(yaclib::WhenAny<F>(std::move(a.f), std::move(b.f))); });
+    };
+    Add("any", F, "static", "WhenAny(p,s)", "ps", ss, true);
+    Add("any", F, "static", "WhenAny(s,p)", "sp", ss, true);
+    Add("any", F, "static", "WhenAny(f,f)", "sd", [](const Scenario& sc) {
+      RunWith<S0, S0>(sc, [](auto& a, auto& b) { Observe(yaclib::WhenAny<F>(std::move(a.f), std::move(b.f))); });
+    }, true);
     auto dyn = [](const Scenario& sc) {
       RunDyn<U0>(sc, [](auto& fs) { Observe(yaclib::WhenAny<F>(fs.begin(), fs.size())); });
     };
@@ -606,6 +672,9 @@ void AddAnyFor() {
 }
 
 // ------------------------------------------------------------------------------------------------ monitors
+std::string InputRepr(char kind, int i);
+std::string Repr(const Scenario& sc, int i) { return InputRepr(sc.pattern[static_cast<std::size_t>(i)], Src(sc.shape, i)); }
+
 std::string InputRepr(char kind, int i) {
   return (kind == 'V' ? "val:" : kind == 'E' ? "err:" : "exc:") + std::to_string(i);
 }
@@ -618,16 +687,37 @@ struct Lin {
   std::size_t out_line = 0, last_fire_line = 0;
   int out_sets = 0;
   std::vector<int> released;      // per input
+  std::vector<std::size_t> sub_line;   // per input: 1 + line of its subscriber's invocation (0 = none)
+  std::vector<std::size_t> done_line;  // per word: line of the completer's exchange
 };
 
-// who is consuming which input is recovered from the hand-off words: a thread is "in" input i from the moment its operation
-// on w<i> handed it the callback (registering thread: load -> result / CAS failure; completer: exchange returned a callback)
+// who is consuming which input is recovered from the hand-off words.  The registering thread works through the inputs in
+// index order: its `load -> result` / failed CAS on the word of the next input means "consumed inline", a successful CAS
+// "callback installed".  A completer's exchange that returns a callback list hands it every callback installed on that
+// word, most recently installed first (one per input; two if the same SharedFuture was passed twice); every consumption
+// ends with its `cnt fsub`, after which the thread's next operation on `st` / `cnt` belongs to the next callback.
 Lin Linearise(const Scenario& sc) {
   Lin L;
   L.released.assign(static_cast<std::size_t>(sc.n), 0);
-  std::map<std::string, int> cur;
-  std::vector<bool> entered(static_cast<std::size_t>(sc.n), false);
+  L.sub_line.assign(static_cast<std::size_t>(sc.n), 0);
+  L.done_line.assign(static_cast<std::size_t>(sc.n), 0);
+  std::map<std::string, std::vector<int>> queue;  // thread -> inputs it still has to consume, front = current
+  std::map<std::string, bool> finished;           // the current consumption of the thread did its DecRef
+  std::map<int, std::vector<int>> installed;      // word -> inputs installed on it, in installation order
+  int reg = 0;
   auto& tr = vx::gCtx->trace;
+  auto current = [&](const std::string& th, std::size_t k, bool starts_op) -> int {
+    auto& q = queue[th];
+    if (starts_op && finished[th] && !q.empty()) {
+      q.erase(q.begin());
+      finished[th] = false;
+      if (!q.empty()) {
+        L.fired.push_back(q.front());
+        L.last_fire_line = k;
+      }
+    }
+    return q.empty() ? -1 : q.front();
+  };
   for (std::size_t k = 0; k < tr.size(); ++k) {
     std::vector<std::string> t;
     {
@@ -642,34 +732,56 @@ Lin Linearise(const Scenario& sc) {
     }
     if (t.size() < 3) continue;
     if (t[1] == "A" && t[2].size() >= 2 && t[2][0] == 'w' && t[2] != "w") {
-      int i = std::atoi(t[2].c_str() + 1);
+      int word = std::atoi(t[2].c_str() + 1);
       const std::string& res = t.back();
-      bool enter = false;
       if (t[0] == "r") {
-        enter = (t[3] == "load" && res == "result") || (t[3].rfind("cas", 0) == 0 && res == "fail:result");
-      } else {
-        enter = t[3] == "xchg" && res != "empty" && res != "result";
+        if (reg < sc.n && Src(sc.shape, reg) == word) {
+          bool inl = (t[3] == "load" && res == "result") || (t[3].rfind("cas", 0) == 0 && res == "fail:result");
+          bool inst = t[3].rfind("cas", 0) == 0 && res == "ok";
+          if (inl) {
+            queue["r"] = {reg};
+            finished["r"] = false;
+            L.fired.push_back(reg);
+            L.last_fire_line = k;
+            ++reg;
+          } else if (inst) {
+            installed[word].push_back(reg);
+            ++reg;
+          }
+        }
+      } else if (t[3] == "xchg" && res != "result") {
+        if (word >= 0 && word < sc.n) L.done_line[static_cast<std::size_t>(word)] = k;
+        if (res != "empty") {
+          auto& in = installed[word];
+          queue[t[0]].assign(in.rbegin(), in.rend());
+          finished[t[0]] = false;
+          if (!in.empty()) {
+            L.fired.push_back(in.back());
+            L.last_fire_line = k;
+          }
+        }
       }
-      if (enter && i >= 0 && i < sc.n && !entered[static_cast<std::size_t>(i)]) {
-        entered[static_cast<std::size_t>(i)] = true;
-        cur[t[0]] = i;
-        L.fired.push_back(i);
-        L.last_fire_line = k;
+    } else if (t[1] == "A" && t[2] == "st") {
+      int i = current(t[0], k, true);
+      if (t[3] != "load") {
+        L.st_rmw.push_back(i);
+        std::string op = t[3];
+        if (op == "cas_strong") op = t.back() == "ok" ? "cas_ok" : "cas_fail";
+        L.st_op.push_back(op + ":" + t.back());
       }
-    } else if (t[1] == "A" && t[2] == "st" && t[3] != "load") {
-      auto it = cur.find(t[0]);
-      L.st_rmw.push_back(it == cur.end() ? -1 : it->second);
-      std::string op = t[3];
-      if (op == "cas_strong") op = t.back() == "ok" ? "cas_ok" : "cas_fail";
-      L.st_op.push_back(op + ":" + t.back());
+    } else if (t[1] == "A" && t[2] == "cnt") {
+      current(t[0], k, true);
+      finished[t[0]] = true;
     } else if (t[1] == "A" && t[2] == "out" && t[3] == "xchg") {
-      auto it = cur.find(t[0]);
-      L.out_setter = it == cur.end() ? -1 : it->second;
+      L.out_setter = current(t[0], k, false);
       L.out_line = k;
       ++L.out_sets;
     } else if (t[1] == "E" && t[2] == "release" && t.size() >= 4) {
       int i = std::atoi(t[3].c_str());
       if (i >= 0 && i < sc.n) ++L.released[static_cast<std::size_t>(i)];
+    } else if (t[1] == "E" && t[2] == "sub" && t.size() >= 4) {
+      int i = std::atoi(t[3].c_str());
+      if (i >= 0 && i < sc.n) L.sub_line[static_cast<std::size_t>(i)] = k + 1;
     }
   }
   return L;
@@ -689,6 +801,16 @@ std::string Monitor(const Scenario& sc, bool done) {
   if (gBadDestroy != 0) return "a payload object was destroyed twice";
   Lin L = Linearise(sc);
   for (int i = 0; i < sc.n; ++i) {
+    if (!gSub[i].armed) continue;
+    std::string who = "the subscriber attached to input " + std::to_string(i) + " before the combinator call ";
+    if (gSub[i].calls != 1) return who + "ran " + std::to_string(gSub[i].calls) + " times";
+    if (gSub[i].val != Repr(sc, i)) return who + "received " + gSub[i].val + " instead of " + Repr(sc, i);
+    if (L.sub_line[static_cast<std::size_t>(i)] <= L.done_line[static_cast<std::size_t>(i)]) {
+      return who + "ran before its input completed";
+    }
+  }
+  for (int i = 0; i < sc.n; ++i) {
+    if (sc.shape[static_cast<std::size_t>(i)] == 'd') continue;
     if (gCores[i].freed != 1) {
       return "the core of input " + std::to_string(i) + " was freed " + std::to_string(gCores[i].freed) + " times";
     }
@@ -697,11 +819,11 @@ std::string Monitor(const Scenario& sc, bool done) {
   bool failing = sc.pattern.find_first_not_of('V') != std::string::npos;
   std::string want;
   if (sc.passthrough) {
-    want = "one:" + InputRepr(sc.pattern[0], 0);
+    want = "one:" + Repr(sc, 0);
   } else if (sc.kind == "allvec" || sc.kind == "alltuple") {
     if (sc.policy == "none" || !failing) {
       want = "vec:";
-      for (int i = 0; i < sc.n; ++i) want += (i ? "," : "") + InputRepr(sc.pattern[i], i);
+      for (int i = 0; i < sc.n; ++i) want += (i ? "," : "") + Repr(sc, i);
     }
   } else if (sc.kind == "join") {
     if (sc.policy == "none" || !failing) want = "unit";
@@ -723,7 +845,7 @@ std::string Monitor(const Scenario& sc, bool done) {
         }
       }
       if (winner < 0) return "no exchange on the done flag although an input failed";
-      want = "one:" + InputRepr(sc.pattern[winner], winner);
+      want = "one:" + Repr(sc, winner);
       if (L.out_setter != winner) return "the output was not set by the consumption that won the done flag";
     } else {
       int winner = -1;
@@ -742,7 +864,7 @@ std::string Monitor(const Scenario& sc, bool done) {
             if (L.st_op[k].rfind("fsub", 0) == 0) winner = L.st_rmw[k];
       }
       if (winner < 0) return "no deciding operation on the strategy word was observed";
-      want = "one:" + InputRepr(sc.pattern[winner], winner);
+      want = "one:" + Repr(sc, winner);
       // a value must win whenever there is one (LastFail / FirstFail)
       if (sc.policy != "none" && sc.pattern.find('V') != std::string::npos && sc.pattern[winner] != 'V') {
         return "a failure won although an input carried a value";
